@@ -64,3 +64,33 @@ func VerifC09Metrics() {
 	}
 	verifReach("end")
 }
+
+// C09: no counter update is lost — two Record calls interleaved at any lock boundary.
+func VerifC09NoLostUpdate() {
+	clock.Freeze(time.Unix(1700000000, 0))
+	verifStub("github.com/vulcand/oxy/v2/memmetrics.NewRollingHDRHistogram", func(low, high int64, sig int, period time.Duration, n int, opts []any) (*RollingHDRHistogram, error) {
+		return &RollingHDRHistogram{}, nil
+	})
+	verifStub("(*github.com/vulcand/oxy/v2/memmetrics.RollingHDRHistogram).RecordLatencies", func(h *RollingHDRHistogram, d time.Duration, n int64) error { return nil })
+	m, err := NewRTMetrics()
+	verifAssert("metrics-ok", err == nil)
+	m.Record(200, time.Millisecond)
+	codeA := []int{200, 502, 404}[verifConcretize(verifInt("codeA"), 0, 2)]
+	codeB := []int{200, 502, 404}[verifConcretize(verifInt("codeB"), 0, 2)]
+	verifInterleave("records", func() { m.Record(codeA, time.Millisecond) }, func() { m.Record(codeB, time.Millisecond) })
+	verifAssert("no-lost-total", m.TotalCount() == 3)
+	netErrs := int64(0)
+	if codeA == 502 {
+		netErrs++
+	}
+	if codeB == 502 {
+		netErrs++
+	}
+	verifAssert("no-lost-network-errors", m.NetworkErrorCount() == netErrs)
+	sum := int64(0)
+	for _, c := range m.StatusCodesCounts() {
+		sum += c
+	}
+	verifAssert("no-lost-status-codes", sum == 3)
+	verifReach("end")
+}
